@@ -119,6 +119,16 @@ func Execute(t *testing.T, sc *Scenario, plan *Plan, ch *Chooser, maxSteps int, 
 			cancel()
 			ctx, cancel = context.WithDeadline(context.Background(), time.Now().Add(ms(plan.CancelMs)))
 		}
+		if plan.X("ctx_deadline") == 2 {
+			// the context ends by expiry (Err = DeadlineExceeded) at the moment
+			// the plan cancels it, whichever way that is
+			cancel()
+			dl := time.Now().Add(time.Hour)
+			if plan.CancelMs > 0 {
+				dl = time.Now().Add(ms(plan.CancelMs))
+			}
+			ctx, cancel = newExpiringCtx(dl)
+		}
 		e := &Env{S: s, Plan: plan, Ctx: ctx, cancel: cancel, Abort: make(chan struct{}), Probes: map[string]int{}, Faults: map[string]int{}}
 		s.Watch(ctx.Done(), &e.Cancelled)
 		env = e
@@ -181,7 +191,7 @@ func Execute(t *testing.T, sc *Scenario, plan *Plan, ch *Chooser, maxSteps int, 
 			if len(buf) > 0 && steps-lastEnvStep >= 1500 && s.Now() > lastEnvVT {
 				settled = true
 				for _, t := range buf {
-					if !t.Lib {
+					if !t.Lib || !librarySite(t.Site) || t.Group == 3 {
 						settled = false
 					}
 				}
@@ -238,7 +248,9 @@ func Execute(t *testing.T, sc *Scenario, plan *Plan, ch *Chooser, maxSteps int, 
 				break
 			}
 			i := ch.PickTask(buf)
-			if !buf[i].Lib {
+			if !buf[i].Lib || !librarySite(buf[i].Site) || buf[i].Group == 3 {
+				// an environment task, or a library task inside harness code
+				// (user function, monoid): not library-internal periodic activity
 				lastEnvStep, lastEnvVT = steps, s.Now()
 			}
 			steps++
@@ -313,6 +325,9 @@ func Execute(t *testing.T, sc *Scenario, plan *Plan, ch *Chooser, maxSteps int, 
 		// the bubble with its deadlock panic, recovered by Execute.
 		s.FreeRun()
 		close(e.Abort)
+		for _, f := range e.OnCleanup {
+			f()
+		}
 		cancel()
 		e.CancelNow()
 		for i := 0; i < 4; i++ {
@@ -343,3 +358,7 @@ func SortedKeys[V any](m map[string]V) []string {
 	sort.Strings(ks)
 	return ks
 }
+
+// librarySite tells sites inserted by the instrumenter ("file.go:line:col:kind")
+// from sites of harness code ("monoid.stall", "fn.emit", ...).
+func librarySite(site string) bool { return strings.Contains(site, ".go:") }
